@@ -59,6 +59,7 @@ class Conn(object):
         self.frames = []  # request frames received (bytes, without length prefix), in order
         self.raw_in = []  # raw chunks as delivered
         self.on_frame = None  # callback(conn, frame)
+        self.on_close = None  # callback(conn, reason) when the server end sees the connection go away
         self.closed = False  # the server end saw the connection go away
         self.server = ServerSide(self)
         addr = Addr(host, port)
@@ -77,6 +78,8 @@ class Conn(object):
     def _server_lost(self, reason):
         self.closed = True
         self.net.log.append(("closed", self.cid))
+        if self.on_close is not None:
+            self.on_close(self, reason)
 
     def correlation_id(self, frame):
         return int.from_bytes(frame[4:8], "big", signed=True)
